@@ -189,6 +189,7 @@ class LockStep:
             "sleeping": frozenset(self.mdl.sleeping),
             "t": time.time(),
             "sc": state_class(self.mdl),
+            "ncbset": len(eng.cb_set_calls),
         }
 
     def post_logic(self, tok, origin, data, reply, exc):
@@ -233,6 +234,13 @@ class LockStep:
             if after != tok["before"] or reply is not None or len(gw.tasks.queue) != tok["qlen"] or cbs:
                 out.v("C01", f"invalid-header-line-effect:t={t}", f"line {data!r} is not valid for {version} (header) but was accepted and had an effect", origin)
         r = mdl.step(n, c, t, a, s, p)
+        for (n2, c2, vt2, val2, raised2) in eng.cb_set_calls[tok.get("ncbset", 0):]:
+            # the callback of this very message called set_child_value: a controller call made after the report was stored
+            r2 = mdl.set_child_value(n2, c2, vt2, str(val2), raised2)
+            r = dict(r, sends=list(r["sends"]) + list(r2["sends"]))
+            out.count("controller_sets_from_inside_the_callback")
+            if r2["kind"] == "ctl-set-desired":
+                out.count("desired_stored")
         out.kinds.append(r["kind"])
         out.kind_states.append((r["kind"], tok["sc"], t, s))
         out.count("accepted_lines")
@@ -356,6 +364,9 @@ class LockStep:
                 continue
             if kind == "cbraise":
                 eng.cb_raise = bool(stp[1])
+                continue
+            if kind == "cbset":
+                eng.cb_set_armed = True
                 continue
             if kind == "lag":
                 lag = int(stp[1])
